@@ -43,6 +43,73 @@ type vfC02Case struct {
 	Faults []vfFaultSpec `json:"faults"`
 	Prev   int           `json:"prev"` // 0: empty destination; n>0: the destination already holds the first 1/n of every file (resume hash exchange with -y)
 	Lies   []vfLie       `json:"lies,omitempty"`
+	JLies  []vfJLie      `json:"jlies,omitempty"`
+}
+
+// vfJLie changes one member of the first coded JSON object of a message type in one direction and re-codes the line (a damage of
+// several bytes that keeps the base64 / zlib coding consistent, which single-byte faults cannot do): the hash lines and hash
+// acknowledgements of a resumed transfer.
+type vfJLie struct {
+	Back  bool   `json:"back"`  // true: receiver -> sender (SUCC acks), false: sender -> receiver (HASH lines)
+	Typ   string `json:"typ"`   // HASH | SUCC
+	Field string `json:"field"` // step | match | over | hash
+	Delta int64  `json:"delta"` // step: added; others: ignored
+}
+
+func vfInstallJLie(l vfJLie, fwd, back *vfLink, applied *int32) {
+	link := fwd
+	if l.Back {
+		link = back
+	}
+	done := false
+	link.rewrites = append(link.rewrites, func(mm vfMsg, line []byte) []byte {
+		if done || mm.Typ != l.Typ {
+			return nil
+		}
+		js, err := vfDecodeLine(line)
+		if err != nil {
+			return nil
+		}
+		var m map[string]any
+		if json.Unmarshal(js, &m) != nil {
+			return nil
+		}
+		// the first object of that type that has the member (name acknowledgements are objects too)
+		switch l.Field {
+		case "step":
+			v, ok := m["step"].(float64)
+			if !ok {
+				return nil
+			}
+			m["step"] = int64(v) + l.Delta
+		case "match", "over":
+			v, ok := m[l.Field].(bool)
+			if !ok {
+				return nil
+			}
+			m[l.Field] = !v
+		case "hash":
+			v, ok := m["hash"].(string)
+			if !ok || len(v) == 0 {
+				return nil
+			}
+			c := byte('0')
+			if v[0] == '0' {
+				c = '1'
+			}
+			m["hash"] = string(c) + v[1:]
+		default:
+			return nil
+		}
+		done = true
+		atomic.AddInt32(applied, 1)
+		out, _ := json.Marshal(m)
+		nl := "\n"
+		if bytes.HasSuffix(line, []byte("!\n")) {
+			nl = "!\n"
+		}
+		return vfEncodeLine(l.Typ, out, nl)
+	})
 }
 
 // vfLie is a pair of cooperating faults, one per direction: the number in the Occ-th message of type Typ is changed on its way to
@@ -256,6 +323,14 @@ func vfC02Run(cs vfC02Case, res *vfC02Res) string {
 		vfInstallLie(lie, fwd, back, &lied)
 		res.phases = append(res.phases, fmt.Sprintf("lie:%s:echo%v", lie.Typ, lie.Echo))
 	}
+	for _, l := range cs.JLies {
+		fwd, back := r.s2c, r.c2s
+		if cs.Cfg.Upload {
+			fwd, back = r.c2s, r.s2c
+		}
+		vfInstallJLie(l, fwd, back, &lied)
+		res.phases = append(res.phases, fmt.Sprintf("jlie:%s.%s", l.Typ, l.Field))
+	}
 	r.run(paths, dest, 45*time.Second)
 	res.applied = r.c2s.appliedFaults() + r.s2c.appliedFaults() + int(atomic.LoadInt32(&lied))
 	if r.hung {
@@ -346,6 +421,22 @@ func vfGenC02(rt *rapid.T) vfC02Case {
 				Frac:  rapid.SampledFrom([]int64{0, 0, 15, 15, 14, 12, 8, 4, 17, 20, 32}).Draw(rt, "liefrac"),
 			})
 		}
+	}
+	if cs.Prev > 0 && cs.Cfg.Protocol >= 3 && rapid.IntRange(0, 1).Draw(rt, "jlying") == 0 {
+		// a resumed transfer: the hash exchange carries steps and verdicts that decide where the rest of the file goes
+		nf = rapid.IntRange(0, 1).Draw(rt, "nfaults_with_jlie")
+		l := vfJLie{Back: rapid.IntRange(0, 2).Draw(rt, "jback") != 0}
+		if l.Back {
+			l.Typ = "SUCC"
+			// the step is a number the sender checks against what it knows; the boolean verdict next to it has nothing it could be
+			// checked against - forging it is forging the receiver's answer, not damaging it - and is left alone
+			l.Field = "step"
+		} else {
+			l.Typ = "HASH"
+			l.Field = rapid.SampledFrom([]string{"step", "over", "hash"}).Draw(rt, "jfield_fwd")
+		}
+		l.Delta = rapid.SampledFrom([]int64{1, 1, 2, 100, 1000, 4096, -1, -100, 1 << 20, 1 << 40}).Draw(rt, "jdelta")
+		cs.JLies = append(cs.JLies, l)
 	}
 	for i := 0; i < nf; i++ {
 		var f vfFaultSpec
